@@ -16,7 +16,8 @@ def build_values(raw):
         v[len(v) // 2] += 0.5
         return v if kind == "list" else np.array(v)
     if fault == "badtype":
-        return {"str": "abc", "float": float(vals[0]) + 0.5, "tuple": tuple(vals), "set": set(vals),
+        # (a string is a string: also one that spells a number)
+        return {"str": "abc" if raw.get("npint", 0) == 0 else str(vals[0]), "float": float(vals[0]) + 0.5, "tuple": tuple(vals), "set": set(vals),
                 "none": None, "strlist": [str(x) + "x" for x in vals],
                 "dict": {x: x for x in vals}}[kind]
     if kind == "int":
